@@ -122,6 +122,14 @@ def main(tier='quick'):
                 runs.append(p.run)
                 recipes.append({'kind': 'reset_after_op', 'req': req, 'conv': name, 'i': i})
                 n_fin += 1
+                # the peer stops receiving: the loss of the connection is discovered by the next local WRITE failing
+                nxt = [op for op in sc[i:] if op[0] in ('U', 'G')][:1]
+                if nxt:
+                    p = ulcorpus.play(sc[:i] + [('DEAF',)] + nxt + [('FIN',)], req)
+                    finish(p)
+                    runs.append(p.run)
+                    recipes.append({'kind': 'deaf_after_op', 'req': req, 'conv': name, 'i': i})
+                    n_fin += 1
                 p, st = silent(sc, req, i)
                 runs.append(p.run)
                 recipes.append({'kind': 'silent', 'req': req, 'conv': name, 'i': i, 'state': st})
@@ -176,6 +184,10 @@ def replay(doc):
         finish(p)
     elif rec['kind'] == 'reset_after_op':
         p = ulcorpus.play(sc[:rec['i']] + [('RESET',)], rec['req'])
+        finish(p)
+    elif rec['kind'] == 'deaf_after_op':
+        nxt = [op for op in sc[rec['i']:] if op[0] in ('U', 'G')][:1]
+        p = ulcorpus.play(sc[:rec['i']] + [('DEAF',)] + nxt + [('FIN',)], rec['req'])
         finish(p)
     elif rec['kind'] == 'fin_after_op':
         p = ulcorpus.play(sc[:rec['i']] + [('FIN',)], rec['req'])
